@@ -4,6 +4,7 @@ import (
 	"fmt"
 	"os"
 	"os/exec"
+	"sort"
 	"strings"
 	"time"
 
@@ -79,9 +80,9 @@ func c14Scenarios() []*core.Scenario {
 func runSched(prop string) *ShardResult {
 	res := newResult()
 	thorough := *fTier == "thorough"
-	bound := 2
+	bound := 3
 	if thorough {
-		bound = 3
+		bound = 4
 	}
 	var scs []*core.Scenario
 	if prop == "C06" {
@@ -89,65 +90,86 @@ func runSched(prop string) *ShardResult {
 	} else {
 		scs = c14Scenarios()
 	}
-	res.Bounds["preemption_bound"] = bound
+	res.Bounds["preemption_bounds"] = []int{bound - 1, bound}
 	var names []string
 	for _, s := range scs {
 		names = append(names, s.Name)
 	}
 	res.Bounds["scenarios"] = names
 	start := time.Now()
-	for si, sc := range scs {
-		sc := sc
-		st := &core.ExploreStats{}
-		deadline := start.Add(*fBudget * time.Duration(si+1) / time.Duration(len(scs)))
-		nf := 0
-		var lastRec *core.ExecRecord
-		x := &core.Explorer{Bound: bound, Deadline: deadline, Shard: *fShard, NShards: *fNShards, Stats: st,
-			Run: func(ch vsched.Chooser) *vsched.Result {
-				r, rec := core.RunScenario(sc, ch, false)
-				lastRec = rec
-				return r
-			},
-			Stop: func() bool { return nf >= 6 },
+	completed := bound
+	sizeAtLower := make([]int, len(scs))
+	// iterative context bounding: everything with bound-1 preemptions first (must complete), then bound
+	for pass, b := range []int{bound - 1, bound} {
+		order := make([]int, len(scs))
+		for i := range order {
+			order[i] = i
 		}
-		x.Check = func(prefix []int, r *vsched.Result) {
-			rec := lastRec
-			vs := core.CheckExecution(sc, r, rec)
-			out := core.HistoryString(rec)
-			st.Outcomes[out]++
-			if len(res.Samples) < 3 && len(prefix) >= 2 {
-				res.Samples = append(res.Samples, map[string]interface{}{"scenario": sc.Name, "schedule": prefix, "history": out})
+		if pass == 1 {
+			// cheapest scenarios first (by their size at the lower bound), so that as many as possible complete
+			sort.SliceStable(order, func(a, b int) bool { return sizeAtLower[order[a]] < sizeAtLower[order[b]] })
+		}
+		for _, si := range order {
+			sc := scs[si]
+			st := &core.ExploreStats{}
+			// one deadline for the whole check: the lower bound runs first and completes in seconds,
+			// the higher bound gets what is left, scenario by scenario
+			deadline := start.Add(*fBudget)
+			nf := 0
+			var lastRec *core.ExecRecord
+			x := &core.Explorer{Bound: b, Deadline: deadline, Shard: *fShard, NShards: *fNShards, Stats: st,
+				Run: func(ch vsched.Chooser) *vsched.Result {
+					r, rec := core.RunScenario(sc, ch, false)
+					lastRec = rec
+					return r
+				},
+				Stop: func() bool { return nf >= 6 },
 			}
-			for _, v := range vs {
-				nf++
-				f := core.Finding{Prop: v.Prop, Msg: v.Msg, Engine: "sched", Cfg: sc.Cfg,
-					Extra: map[string]interface{}{"scenario": sc, "schedule": append([]int(nil), prefix...), "history": out, "preemption_bound": bound}}
-				f.SigS = fmt.Sprintf("%s|sched|%s|%s", v.Prop, sc.Name, firstLine(v.Msg))
-				res.Findings = append(res.Findings, f)
+			x.Check = func(prefix []int, r *vsched.Result) {
+				rec := lastRec
+				vs := core.CheckExecution(sc, r, rec)
+				out := core.HistoryString(rec)
+				st.Outcomes[out]++
+				if len(res.Samples) < 3 && len(prefix) >= 2 {
+					res.Samples = append(res.Samples, map[string]interface{}{"scenario": sc.Name, "schedule": prefix, "history": out})
+				}
+				for _, v := range vs {
+					nf++
+					f := core.Finding{Prop: v.Prop, Msg: v.Msg, Engine: "sched", Cfg: sc.Cfg,
+						Extra: map[string]interface{}{"scenario": sc, "schedule": append([]int(nil), prefix...), "history": out, "preemption_bound": b}}
+					f.SigS = fmt.Sprintf("%s|sched|%s|%s", v.Prop, sc.Name, firstLine(v.Msg))
+					res.Findings = append(res.Findings, f)
+				}
 			}
-		}
-		x.Explore()
-		res.Counts["executions"] += int64(st.Executions)
-		res.Counts["evaluations"] += int64(st.Executions)
-		res.Counts["transitions"] += int64(st.Executions)
-		res.Counts["traces_validated"] += int64(st.Executions)
-		for o := range st.Outcomes {
-			res.Sets["states"] = append(res.Sets["states"], fmt.Sprintf("s%d:%s", si, o))
-			res.Sets["nontrivial"] = append(res.Sets["nontrivial"], fmt.Sprintf("s%d:%s", si, o))
-		}
-		res.hist("distinct_histories_per_scenario", fmt.Sprintf("s%d", si+1), int64(len(st.Outcomes)))
-		res.hist("executions_per_scenario", fmt.Sprintf("s%d", si+1), int64(st.Executions))
-		for k, v := range st.Preempt {
-			res.hist("executions_by_preemptions", fmt.Sprint(k), int64(v))
-		}
-		if int64(st.MaxChoices) > res.Maxes["max_choice_points"] {
-			res.Maxes["max_choice_points"] = int64(st.MaxChoices)
-		}
-		if !st.Complete {
-			res.Exhaustive = false
-			res.Notes = append(res.Notes, fmt.Sprintf("scenario %q not completed within its time share at preemption bound %d", sc.Name, bound))
+			x.Explore()
+			if pass == 0 {
+				sizeAtLower[si] = st.Executions
+			}
+			res.Counts["executions"] += int64(st.Executions)
+			res.Counts["evaluations"] += int64(st.Executions)
+			res.Counts["transitions"] += int64(st.Executions)
+			res.Counts["traces_validated"] += int64(st.Executions)
+			for o := range st.Outcomes {
+				res.Sets["states"] = append(res.Sets["states"], fmt.Sprintf("s%d:%s", si, o))
+				res.Sets["nontrivial"] = append(res.Sets["nontrivial"], fmt.Sprintf("s%d:%s", si, o))
+			}
+			res.hist(fmt.Sprintf("executions_per_scenario_bound%d", b), fmt.Sprintf("s%d", si+1), int64(st.Executions))
+			for k, v := range st.Preempt {
+				res.hist("executions_by_preemptions", fmt.Sprint(k), int64(v))
+			}
+			if int64(st.MaxChoices) > res.Maxes["max_choice_points"] {
+				res.Maxes["max_choice_points"] = int64(st.MaxChoices)
+			}
+			if !st.Complete {
+				res.Exhaustive = false
+				if b-1 < completed {
+					completed = b - 1
+				}
+				res.Notes = append(res.Notes, fmt.Sprintf("scenario %q not completed within its time share at preemption bound %d", sc.Name, b))
+			}
 		}
 	}
+	res.Mins["preemption_bound_completed_for_all_scenarios"] = int64(completed)
 	if prop == "C06" && *fRaceBin != "" && *fShard == 0 {
 		racePass(res)
 	}
